@@ -24,6 +24,7 @@ import (
 	"strconv"
 	"strings"
 	"sync"
+	"sync/atomic"
 	"time"
 
 	rwl "github.com/SKAARHOJ/rawpanel-lib"
@@ -106,9 +107,18 @@ func guarded(f func() c06res) c06res {
 	case r := <-ch:
 		return r
 	case <-time.After(5 * time.Second):
+		atomic.AddInt32(&c06hangs, 1)
 		return c06res{status: "hang"}
 	}
 }
+
+// hang budget: every hung call keeps a goroutine spinning for the rest of the process, so after a
+// few of them nothing more is learnt and everything gets slower (seed C06-11 hung on hundreds of
+// inputs and the run hit the harness time limit before a single case was written).  A child stops
+// after 3 hangs, the parent stops starting batches after 9; what was run is reported as usual.
+var c06hangs int32
+
+func c06hangBudgetSpent(limit int32) bool { return atomic.LoadInt32(&c06hangs) >= limit }
 
 func unmarshalIn(wires [][]byte) []*rwp.InboundMessage {
 	var ms []*rwp.InboundMessage
@@ -185,7 +195,7 @@ var c06hist = map[string]int{}
 // stack exhaustion, concurrent map access) kills only the child.  When the child dies the batch is
 // bisected down to the single crashing case, which is reported with status `crash`.
 func runBatch(cases []c06case) {
-	if len(cases) == 0 {
+	if len(cases) == 0 || c06hangBudgetSpent(9) {
 		return
 	}
 	lines, ok := runChild(cases)
@@ -228,12 +238,19 @@ func runChild(cases []c06case) ([]string, bool) {
 		return nil, false
 	}
 	var lines []string
+	skipped := 0
 	for _, l := range strings.Split(outb.String(), "\n") {
 		if strings.HasPrefix(l, "(c06 ") {
 			lines = append(lines, l)
+			if strings.Contains(l, " (hang ") {
+				atomic.AddInt32(&c06hangs, 1)
+			}
+		}
+		if strings.HasPrefix(l, "SKIPPED ") {
+			skipped, _ = strconv.Atoi(strings.TrimPrefix(l, "SKIPPED "))
 		}
 	}
-	if len(lines) != len(cases) {
+	if len(lines)+skipped != len(cases) {
 		return nil, false
 	}
 	return lines, true
@@ -321,13 +338,19 @@ func runBatchInProcess(cases []c06case) {
 	}
 	seq := make([]c06res, len(cases))
 	conc := make([]bool, len(cases))
+	skipped := 0
 	for i := range cases {
+		if c06hangBudgetSpent(3) {
+			seq[i] = c06res{status: "skip"}
+			skipped++
+			continue
+		}
 		seq[i] = run(i)
 		conc[i] = seq[i].status != "ok" || inputIntact(i)
 	}
 	var mu sync.Mutex
 	var wg sync.WaitGroup
-	for g := 0; g < 16; g++ {
+	for g := 0; g < 16 && skipped == 0; g++ {
 		wg.Add(1)
 		go func(g int) {
 			defer wg.Done()
@@ -346,7 +369,13 @@ func runBatchInProcess(cases []c06case) {
 		}(g)
 	}
 	wg.Wait()
+	if skipped > 0 {
+		defer func() { out.Flush(); fmt.Fprintf(caseOut, "SKIPPED %d\n", skipped) }()
+	}
 	for i, c := range cases {
+		if seq[i].status == "skip" {
+			continue
+		}
 		if seq[i].status == "ok" && !inputIntact(i) {
 			conc[i] = false
 		}
@@ -652,7 +681,10 @@ func randScalar(rng *Rng, fd protoreflect.FieldDescriptor) protoreflect.Value {
 	case protoreflect.DoubleKind:
 		return protoreflect.ValueOfFloat64(float64(v) / 7)
 	case protoreflect.StringKind:
-		return protoreflect.ValueOfString(rng.PickS([]string{"", "a", "A1", "x|y", "a\nb", "é", "\xff", "{}", "<svg>\n<path d=\"M0\n1\"/>\n</svg>", "1;2", "0123456789"}))
+		return protoreflect.ValueOfString(rng.PickS([]string{"", "a", "A1", "x|y", "a\nb", "é", "\xff", "{}", "<svg>\n<path d=\"M0\n1\"/>\n</svg>", "1;2", "0123456789",
+			// every kind of line break and control character alone, doubled, at the ends (seed C06-11: a
+			// scan loop with no case for a carriage return that is not followed by a line feed spins for ever)
+			"a\rb", "\r", "a\r", "\ra", "a\r\nb", "a\n\rb", "\r\r", "\n\n", "a\x00b", "\t", "a\x0bb\x0c", "\u2028x\u2029", "\u0085", "%d%s", "50%"}))
 	case protoreflect.BytesKind:
 		return protoreflect.ValueOfBytes(rng.Bytes(rng.Pick([]int{0, 1, 3, 169, 170, 171, 340, 341})))
 	}
@@ -848,6 +880,42 @@ func genC06(tier string, rng *Rng) {
 	for _, w := range presenceSweep(newOut, evReach, nil) {
 		add("encout", [][]byte{w})
 	}
+	// 2a'. presence patterns of TWO consecutive events for one component (every subset of the five payload
+	// kinds on each side, 32 x 32), and of two consecutive states (seed C06-12: merging a press with the
+	// following release reads the next event's Binary payload without checking that it has one)
+	for a := 0; a < 32; a++ {
+		for b := 0; b < 32; b++ {
+			mk := func(mask int, id uint32) *rwp.HWCEvent {
+				e := &rwp.HWCEvent{HWCID: id}
+				if mask&1 != 0 {
+					e.Binary = &rwp.BinaryEvent{Pressed: mask&2 == 0, Edge: rwp.BinaryEvent_EdgeID(mask & 4)}
+				}
+				if mask&2 != 0 {
+					e.Pulsed = &rwp.PulsedEvent{Value: -1}
+				}
+				if mask&4 != 0 {
+					e.Absolute = &rwp.AbsoluteEvent{Value: 7}
+				}
+				if mask&8 != 0 {
+					e.Speed = &rwp.SpeedEvent{Value: -3}
+				}
+				if mask&16 != 0 {
+					e.RawAnalog = &rwp.RawAnalogEvent{Value: 9}
+				}
+				return e
+			}
+			for _, same := range []bool{true, false} {
+				id2 := uint32(5)
+				if !same {
+					id2 = 6
+				}
+				if !same && !thorough && (a+b)%4 != 0 {
+					continue
+				}
+				add("encout", [][]byte{mustWire(&rwp.OutboundMessage{Events: []*rwp.HWCEvent{mk(a, 5), mk(b, id2)}})})
+			}
+		}
+	}
 	// 2b. enum sweep: every enum field of every (nested) message type, values -2..40 and the int32 extremes,
 	//     each set alone in an otherwise minimal message that reaches the field
 	for _, w := range enumSweep(func() proto.Message { return &rwp.InboundMessage{} }) {
@@ -901,7 +969,9 @@ func genC06(tier string, rng *Rng) {
 	if thorough {
 		nchild = 400
 	}
-	runCold(coldCases(rng), nchild)
+	if !c06hangBudgetSpent(9) {
+		runCold(coldCases(rng), nchild)
+	}
 	meta(map[string]interface{}{"property": "C06", "kind_status_histogram": c06hist, "cold_start_children": nchild})
 }
 
